@@ -5,6 +5,7 @@ ASSUMPTIONS = [
     "the operating system and CPython's garbage collector are modelled: the model predicts growth of the number of open descriptors per build (after dropping the session and gc.collect()), not absolute numbers; the first build of a process may open the sqlite database once",
     "descriptor budgets of imported libraries (rich, sqlalchemy pools beyond one connection) and pdb interaction are outside the model",
     "builds are compared with fresh-process builds over a copy of the same project, build by build (same PYTHONHASHSEED)",
+    "a task that closes sys.stdout while captured (sub-project closer) is generated only as the last build of a process and never with capture=no; closed stream objects are outside the Lean model (no correspondence for that build, oracle only)",
     "configuration failures are generated in pytask_parse_config only (invalid capture method); a failure inside a later pytask_post_parse implementation is not generated",
 ]
 
@@ -14,9 +15,10 @@ def run(ctx):
                 "failing import / cyclic DAG, capture fd|sys|tee-sys|no, verbose 0-2, force, dry-run, invalid configuration; before/after each build: fstat(0..2), "
                 "/proc/self/fd, identity of sys.std*, cwd, warnings.filters, pdb.set_trace, registries; outcomes vs the same build in a fresh process; "
                 "the same sequence replayed in the Lean model; non-trivial = >= 2 builds and some build executed a task; distinct by canonical sequence")
-    capture_api.campaign_c15(ctx, ctx.scale(9, 60), workers=8)
+    capture_api.campaign_c15(ctx, ctx.scale(7, 60), workers=10)
     found = {v["finding"] for v in ctx.violations}
-    ctx.extra["f6_witness_detected"] = "F6" in found
+    ctx.extra["f6b_witness_detected"] = "F6b" in found
+    ctx.extra["f6c_witness_detected"] = "F6c" in found
     ctx.extra["f7_witness_detected"] = "F7" in found
 
 
